@@ -18,14 +18,18 @@ META = {
             "to be the first-order rule |L||dR| + |dL||R| accumulated in the same order; without errors on an element the error is "
             "dropped. (2) recipes._elements is partially evaluated for every ordering of origin/target against the matching scales: "
             "it yields exactly one recipe per block of Atlas.matched_path, in path order, Evolution for segments and Matching for "
-            "matchings, with the block's fields (from_atlas/as_atlas are mutually inverse). (3) routing: the runner stores "
-            "Evolution parts in `parts` and Matching parts in `parts_matching`, and retrieval selects the inventory by the same "
-            "header class and keeps the order of the path. (4) every recipe is computed under exactly one assignment, outside the "
-            "per-target loop, from a duplicate-free recipe collection. (5) the matching part is built with the number of light "
+            "matchings, with the block's fields (from_atlas/as_atlas are mutually inverse). (3)+(4) managed.solve is evaluated AS A "
+            "WHOLE - real recipe construction (set-based, with the value identity of the recipe headers), real inventories on a model "
+            "file system, real retrieve/join; only the two part computations are recording mocks returning symbolic operators - for "
+            "five runs of one process (targets sharing segments, a target exactly on a matching scale listed before and after one "
+            "that crosses it, backward targets, a repeated set of scales with another initial flavour number): every distinct step "
+            "of the reference paths is computed exactly once, by the computation of its kind, with the cliff flag the reference path "
+            "requires, and the operator a fresh object reads for every target is, element by element, the join in path order of the "
+            "parts of that target's own path. (5) the matching part is built with the number of light "
             "flavours hq-1, the scale of the recipe and the matching ratio of the quark hq.",
     "note": "Numeric equality of the stored product with an independently computed one is a runtime statement; the product "
             "formula, order and routing are decided for all operator values.",
-    "technique": "partial evaluation with symbolic tensors + polynomial identity testing; exhaustive PE over orderings; routing/once-only rules on the AST",
+    "technique": "partial evaluation with symbolic tensors + polynomial identity testing; exhaustive PE over orderings; partial evaluation of the whole solve on a model file system with recording part computations",
     "engine": "sa",
 }
 
@@ -134,43 +138,8 @@ def run(chk):
         chk.ok("recipes-follow-matched-path", fel.qname, f"{n_cases} orderings", how="exhaustive PE")
     chk.floor("orderings", n_cases, 900)
 
-    # ---- (3)+(4) routing and once-only computation in managed.solve ----------------------------------------------------
-    fs = src.func("eko.runner.managed.solve")
-    loops = [n for n in ast.walk(fs.node) if isinstance(n, ast.For)]
-    found = {}
-    per_target = None
-    for lp in loops:
-        it = ast.unparse(lp.iter)
-        if "evolgrid" in it:
-            per_target = lp
-        for st in lp.body:
-            if isinstance(st, ast.Assign) and isinstance(st.targets[0], ast.Subscript) and isinstance(st.value, ast.Call):
-                inv = ast.unparse(st.targets[0].value)
-                fnc = ast.unparse(st.value.func)
-                found[(it, inv, fnc)] = lp
-    want_routes = {("eko.recipes", "eko.parts", "parts.evolve"), ("eko.recipes_matching", "eko.parts_matching", "parts.match")}
-    got_routes = {k for k in found if k[2] in ("parts.evolve", "parts.match")}
-    chk.decide(got_routes == want_routes, "parts-routed-by-recipe-kind", fs.qname,
-               f"solve computes/stores parts as {sorted(got_routes)}; required {sorted(want_routes)}", where=fs.where,
-               detail="recipes -> parts (evolve); recipes_matching -> parts_matching (match)")
-    nested = per_target is not None and any(lp is not per_target and any(m is lp for m in ast.walk(per_target)) for lp in found.values())
-    n_assign = sum(1 for n in ast.walk(fs.node) if isinstance(n, ast.Call) and ast.unparse(n.func) in ("parts.evolve", "parts.match"))
-    chk.decide(not nested and n_assign == 2 and per_target is not None, "each-part-computed-once", fs.qname,
-               "a part computation is nested in the per-target loop or appears more than once: parts shared by several targets would be "
-               "recomputed", where=fs.where, detail="two part computations, both outside the per-target loop")
-    # final operator = join(retrieve(ep))
-    ok = False
-    if per_target is not None:
-        txt = " ".join(stmt_text(s) for s in per_target.body)
-        ok = "operators.retrieve(ep, eko)" in txt and "operators.join(components)" in txt and "eko.operators[target]" in txt
-    chk.decide(ok, "final-operator-is-join-of-retrieved-parts", fs.qname, "the per-target loop no longer stores operators.join(operators.retrieve(ep, eko))",
-               where=fs.where)
-    fc = src.func("eko.runner.recipes._create")
-    rets = [n for n in ast.walk(fc.node) if isinstance(n, ast.Return)]
-    ok = bool(rets) and all("set(" in ast.unparse(r.value) or "dict.fromkeys" in ast.unparse(r.value) for r in rets)
-    chk.decide(ok, "recipe-collection-is-duplicate-free", fc.qname, "_create no longer removes duplicate recipes", where=fc.where)
+    # ---- (3)+(4) routing, once-only computation and the stored product: decided on the whole of managed.solve (_whole_solve) ------
     # load_recipes / _retrieve route by the same class test
-    flr = src.func("eko.io.struct.EKO.load_recipes")
     fre = src.func(f"{OPS}._retrieve")
     evo = src.cls("eko.io.items.Evolution")
     mat = src.cls("eko.io.items.Matching")
@@ -182,10 +151,7 @@ def run(chk):
         out = f"raises {e}"
     chk.decide(out == ["P_ev", "P_ma", "P_ev"], "retrieval-routed-by-recipe-kind-in-order", fre.qname,
                f"_retrieve([Evolution, Matching, Evolution]) returns {out}", where=fre.where, how="PE")
-    txt = ast.unparse(flr.node)
-    chk.decide("isinstance(recipe, Evolution)" in txt and "self.recipes[recipe]" in txt and "self.recipes_matching[recipe]" in txt,
-               "parts-routed-by-recipe-kind", flr.qname, "load_recipes no longer routes Evolution/Matching recipes to recipes/recipes_matching",
-               where=flr.where, instance="load_recipes")
+    _whole_solve(chk, src)
     # ---- (5) matching part wiring ------------------------------------------------------------------------------------------
     fm = src.func("eko.runner.parts.match")
     env = Env(fm.module)
@@ -206,3 +172,142 @@ def run(chk):
     chk.note(orderings=n_cases, files=["src/eko/runner/managed.py", "src/eko/runner/operators.py", "src/eko/runner/recipes.py",
                                        "src/eko/runner/parts.py", "src/eko/io/items.py"])
     chk.explanation = "Product formula and order of join, recipe/path correspondence (exhaustive), routing and once-only computation."
+
+
+def _whole_solve(chk, src):
+    """managed.solve, evaluated as a whole on a model file system with the real recipe construction, the real inventories and the
+    real retrieve/join; only the two part computations are recording mocks that return symbolic operators.  Decided for several
+    target lists (targets that share segments, a target exactly on a matching scale listed before and after a target that crosses
+    it, backward targets): every distinct step of the reference paths is computed exactly once, by the computation of its kind,
+    and the operator stored for each target is the join, in path order, of the parts of ITS reference path - with the `cliff`
+    flag the reference path requires (intermediate segments only)."""
+    from .. import fsmodel
+    from ..pe import ClassRef, Opaque
+
+    fs_ = src.func("eko.runner.managed.solve")
+    ekoc = src.cls("eko.io.struct.EKO")
+    acls = src.cls("eko.io.access.AccessConfigs")
+    ocls = src.cls("eko.io.items.Operator")
+    walls = [10, 20, 30]
+    scenarios = [
+        ((Fraction(5), 3), [(Fraction(15), 4), (Fraction(25), 5), (Fraction(10), 3), (Fraction(35), 6)]),
+        ((Fraction(5), 3), [(Fraction(10), 3), (Fraction(15), 4), (Fraction(10), 4), (Fraction(7), 3)]),
+        ((Fraction(25), 5), [(Fraction(5), 3), (Fraction(20), 5), (Fraction(15), 4), (Fraction(35), 5), (Fraction(35), 6)]),
+        ((Fraction(15), 4), [(Fraction(15), 4), (Fraction(20), 4), (Fraction(25), 5)]),
+        # same matching scales and initial scale as the first runs, another initial flavour number: runs of one process must not
+        # influence each other (all scenarios are evaluated by ONE evaluator instance, so module-level state persists between them)
+        ((Fraction(5), 4), [(Fraction(15), 4), (Fraction(25), 5), (Fraction(7), 4)]),
+    ]
+    n_t = 0
+    pe = PE(src)
+    pe.overrides["eko.io.runcards.masses"] = lambda p_, a, k: [Fraction(w) for w in walls]
+    for si, (origin, evolgrid) in enumerate(scenarios):
+        inst0 = f"run {si + 1} of one process: origin={tuple(map(str, origin))},targets={[tuple(map(str, e)) for e in evolgrid]}"
+        fs = fsmodel.FS()
+        fsmodel.install(pe, fs)
+        work = fs.path("/work")
+        work.mkdir()
+        acc = Obj(acls)
+        acc.attrs.update(path=fs.path("/out.tar"), readonly=False, open=True)
+        invs = pe.call("eko.io.struct.inventories", [work, acc])
+        for inv in invs.values():
+            inv.attrs["path"].mkdir(parents=True, exist_ok=True)
+        md = Obj(src.cls("eko.io.metadata.Metadata"))
+        md.attrs.update(origin=origin, xgrid="XG", _path=work, version="0", data_version=3)
+        eko = pe.new_object(ekoc, [], dict(invs, metadata=md, access=acc))
+        opc = Opaque()
+        opc._real = "eko.io.runcards.OperatorCard"
+        opc.evolgrid = list(evolgrid)
+        opc.mu20 = origin[0]
+        opc.init = (dag.sym("mu0"), origin[1])
+        opc.configs = Opaque()
+        opc.configs.evolution_method = "EVMETH"
+        thc = Opaque()
+        thc.heavy = Opaque()
+        thc.heavy.matching_ratios = [Fraction(1), Fraction(1), Fraction(1)]
+        eko.attrs["theory_card"] = thc
+        eko.attrs["operator_card"] = opc
+
+        class Builder(Opaque):
+            def load_cards(self, th, op):
+                return self
+
+            def build(self):
+                return eko
+
+            def __enter__(self):
+                return self
+
+            def __exit__(self, *a):
+                return False
+
+        pe.overrides["eko.io.struct.EKO.create"] = lambda p_, a, k: Builder()
+        computed = []
+
+        def part(kind):
+            def f(p_, a, k):
+                rec = a[1]
+                tag = f"s{si}p{len(computed)}"
+                o = Obj(ocls)
+                o.attrs.update(operator=Arr.from_nested([[[[dag.sym(f"{tag}_{x}{i}{y}{j}") for j in range(2)] for y in range(2)] for i in range(2)] for x in range(2)]),
+                               error=None)
+                computed.append((kind, rec, o))
+                return o
+            return f
+
+        pe.overrides["eko.runner.parts.evolve"] = part("evolve")
+        pe.overrides["eko.runner.parts.match"] = part("match")
+        try:
+            pe.call(fs_.qname, [thc, opc, fs.path("/out.tar")])
+        except PERaise as e:
+            chk.fail("stored-operator-is-the-join-along-its-path", fs_.qname, f"{inst0}: solve raises {e}", where=fs_.where, instance=f"scenario{si}")
+            continue
+
+        def key(rec):
+            n = rec.cls.node.name
+            if n == "Evolution":
+                return ("E", rec.attrs["origin"], rec.attrs["target"], rec.attrs["nf"], bool(rec.attrs.get("cliff")))
+            return ("M", rec.attrs["scale"], rec.attrs["hq"], bool(rec.attrs["inverse"]))
+
+        by_key = {}
+        for kind, rec, o in computed:
+            by_key.setdefault(key(rec), []).append((kind, o))
+        # reference: the steps of every target's path
+        want_keys = {}
+        per_target = {}
+        for ep in evolgrid:
+            segs, nff = _expected(walls, origin, ep[1], ep[0])
+            inverse = nff < origin[1]
+            steps = []
+            for i, (o_, t_, nf_) in enumerate(segs):
+                last = i == len(segs) - 1
+                steps.append(("E", o_, t_, nf_, (not last) and t_ in walls))
+                if not last:
+                    steps.append(("M", t_, max(nf_, segs[i + 1][2]), inverse))
+            per_target[ep] = steps
+            for st in steps:
+                want_keys[st] = "evolve" if st[0] == "E" else "match"
+        once = all(len(v) == 1 for v in by_key.values())
+        kinds = all(by_key.get(k_, [(None, None)])[0][0] == kd for k_, kd in want_keys.items())
+        chk.decide(set(by_key) == set(want_keys) and once and kinds, "every-step-computed-once-by-its-kind", fs_.qname,
+                   f"{inst0}: computed {sorted((k_[0],) + tuple(map(str, k_[1:])) + (len(v),) for k_, v in by_key.items())}; required each of "
+                   f"{sorted((k_[0],) + tuple(map(str, k_[1:])) for k_ in want_keys)} exactly once (segments by parts.evolve, matchings by "
+                   f"parts.match)", where=fs_.where, instance=f"scenario{si}", how="PE of solve on a model file system")
+        # what a fresh object finds on disk for every target
+        fresh = pe.new_object(ekoc, [], dict(pe.call("eko.io.struct.inventories", [work, acc]), metadata=md, access=acc))
+        for ep in evolgrid:
+            n_t += 1
+            inst = f"{inst0},target={tuple(map(str, ep))}"
+            try:
+                got = pe.apply(pe.getattr(fresh, "__getitem__"), [ep], {})
+                parts_ = [by_key[st][0][1] for st in per_target[ep]]
+                want = pe.call(f"{OPS}.join", [parts_])
+                ok = isinstance(got, Obj) and all(a is b for a, b in zip(got.attrs["operator"].flat(), want.attrs["operator"].flat()))
+                msg = ""
+            except (PERaise, KeyError) as e:
+                ok, msg = False, f" ({type(e).__name__}: {e})"
+            chk.decide(ok, "stored-operator-is-the-join-along-its-path", fs_.qname,
+                       f"{inst}: the operator stored for this target is not the join, in path order, of the parts of its own path "
+                       f"{[(s[0],) + tuple(map(str, s[1:])) for s in per_target[ep]]}{msg}", where=fs_.where, instance=inst,
+                       how="PE of solve on a model file system")
+    chk.floor("targets of whole-solve evaluations", n_t, 12)
